@@ -151,6 +151,33 @@ fn recursive_enum_host(t: &mut Tape) -> Value {
   art
 }
 
+/// 2-4 modules with 20-60 independent one-line type errors each (more than a hundred diagnostics in
+/// total, spread over modules): everything that collects, caps, merges or sorts diagnostics across
+/// modules sees a large set whose insertion order differs between processes
+fn many_errors_host(t: &mut Tape) -> Value {
+  let names = ["Alpha", "Beta", "Gamma", "Delta"];
+  let n = 2 + t.choose(3);
+  let mut mods: Mods = vec![];
+  for name in names.iter().take(n) {
+    let k = 20 + t.choose(41);
+    let mut s = format!("class {name} {{\n");
+    for i in 0..k {
+      s.push_str(&match t.choose(4) {
+        0 => format!("  function f{i}(): int = true\n\n"),
+        1 => format!("  function f{i}(): bool = {i}\n\n"),
+        2 => format!("  function f{i}(): Str = unbound{i}\n\n"),
+        _ => format!("  function f{i}(): int = \"s{i}\" + 1\n\n"),
+      });
+    }
+    s.push_str("}\n");
+    mods.push((vec![name.to_string()], s));
+  }
+  mods.push((vec!["Entry".to_string()], "class Main {\n  function main(): unit = {\n    let _ = Process.println(\"entry\");\n  }\n}\n".to_string()));
+  let mut art = art_of(&mods, &["Entry".to_string()], &["many-diagnostics-in-several-modules"]);
+  art["faults"] = json!([{"kind": "many-errors", "site": "generated"}]);
+  art
+}
+
 impl Prop for C12 {
   fn id(&self) -> &'static str {
     "C12"
@@ -181,6 +208,9 @@ impl Prop for C12 {
     }
     if t.bool(1, 10) {
       return recursive_enum_host(t);
+    }
+    if t.bool(1, 12) {
+      return many_errors_host(t);
     }
     let mut cfg = super::behav::cfg_for("C12", tier);
     cfg.max_classes = 7;
